@@ -41,7 +41,9 @@ class ProofState():
         prf = self.prf
         try:
             for n in id.id:
-                for item in prf.items[:n+1]:
+                # variables declared on earlier lines (a line inserted before id
+                # does not see a variable declared at id itself)
+                for item in prf.items[:n]:
                     if item.rule == "variable":
                         nm, T = item.args
                         vars[nm] = T
